@@ -50,7 +50,9 @@ impl Family for C05Family {
         let shipped = index % 3 == 0;
         let faulty = !shipped && index % 2 == 1;
         let backend = if shipped { *r.pick(&[Backend::Memory, Backend::Slot]) } else { Backend::Ref };
-        let opts = HistOpts { faults: false, concurrent: false, backend, weights: [3, 4, 2, 3], min_ops: 2, max_prelude: 4, ..Default::default() };
+        // every fifth reference-store run: 2-3 actors contend for the shared store, no faults
+        let concurrent = !shipped && !faulty && index % 5 == 2;
+        let opts = HistOpts { faults: false, concurrent, backend, weights: [3, 4, 2, 3], min_ops: 2, max_prelude: 4, ..Default::default() };
         let mut c = gen_history(&mut r, &opts);
         for a in c.actors.iter_mut() {
             // registrations that can succeed, with exclude lists of every shape
@@ -74,7 +76,15 @@ impl Family for C05Family {
                 }
             }
         }
-        let batch = if shipped { "shipped" } else if faulty { "lookup-errors" } else { "strict" };
+        let batch = if shipped {
+            "shipped"
+        } else if faulty {
+            "lookup-errors"
+        } else if concurrent {
+            "concurrent"
+        } else {
+            "strict"
+        };
         Scenario { family: "C05".into(), batch: batch.into(), seed: master, index, body: Body::Ceremony(c) }
     }
 
@@ -82,7 +92,7 @@ impl Family for C05Family {
         let c = ceremony_of(scn);
         let rec = run_and_measure(c, stats);
         let mut j = Judge::new("C05", scn, &rec);
-        for p in ["allow_list_of_unknown_type_descriptors", "eligible_credential_with_consent", "allow_list_names_other_rp_credential", "allow_list_all_misses", "empty_allow_list", "exclude_hit", "exclude_names_other_rp_credential", "shipped_lookup_without_ids", "shipped_lookup_with_ids", "shipped_store_holds_two_rps"] {
+        for p in ["exclude_lookup_on_contended_store", "allow_list_of_unknown_type_descriptors", "eligible_credential_with_consent", "allow_list_names_other_rp_credential", "allow_list_all_misses", "empty_allow_list", "exclude_hit", "exclude_names_other_rp_credential", "shipped_lookup_without_ids", "shipped_lookup_with_ids", "shipped_store_holds_two_rps"] {
             stats.declare_probe(p);
         }
         if rec.panic.is_some() || rec.outcome != Outcome2::Done {
@@ -114,7 +124,9 @@ impl Family for C05Family {
                     stats.probe("allow_list_of_unknown_type_descriptors");
                 }
                 // an eligible credential and a consenting user: the ceremony selects it
-                if !shipped && scn.batch == "strict" && c.actors.len() == 1 && spec.faults.is_empty() && spec.cancel_after.is_none() {
+                // (credentials are never deleted, so what was eligible at the start stays eligible
+                // while other actors work on the shared store)
+                if !shipped && (scn.batch == "strict" || scn.batch == "concurrent") && spec.faults.is_empty() && spec.cancel_after.is_none() {
                     let allow = o.resolved.allow.as_ref().filter(|l| !l.is_empty());
                     let eligible = o.before.iter().filter(|s| s.rp_id == rp && allow.is_none_or(|l| l.contains(&s.id))).count();
                     let mut asked = None;
@@ -140,7 +152,9 @@ impl Family for C05Family {
                 if o.result.is_ok() {
                     nontrivial = true;
                     let id = returned_id(o).unwrap_or_default();
-                    let stored = o.before.iter().find(|s| s.id == id);
+                    // (under concurrency the credential may have been registered by another actor
+                    // after this ceremony started)
+                    let stored = o.before.iter().chain(o.after.iter()).chain(rec.final_store.iter()).find(|s| s.id == id);
                     if !shipped {
                         match stored {
                             Some(s) if s.rp_id == rp => {}
@@ -175,6 +189,9 @@ impl Family for C05Family {
                 if o.resolved.exclude.as_ref().is_some_and(|l| l.iter().any(|id| o.before.iter().any(|s| &s.id == id && s.rp_id != rp))) {
                     stats.probe("exclude_names_other_rp_credential");
                 }
+                if c.actors.len() > 1 && o.resolved.exclude.as_ref().is_some_and(|l| !l.is_empty()) {
+                    stats.probe("exclude_lookup_on_contended_store");
+                }
                 let excluded = is_excluded(&o.result);
                 if excluded {
                     nontrivial = true;
@@ -185,7 +202,7 @@ impl Family for C05Family {
                     if !applied(&rec, o).is_empty() {
                         j.fail("excluded-created", format!("op a{}#{}: credential-excluded but the store was written: {:?}", o.actor, o.idx, applied(&rec, o).iter().map(|a| a.2).collect::<Vec<_>>()));
                     }
-                } else if named_held && scn.batch == "strict" && c.actors.len() == 1 {
+                } else if named_held && (scn.batch == "strict" || scn.batch == "concurrent") {
                     // consent was given (the user step precedes the exclude check)
                     let consent = rec.events_of(o.actor, o.idx).any(|e| matches!(&e.ev, Ev::UserRet { result: Ok((true, _)) }));
                     let uv_ok = rec.events_of(o.actor, o.idx).any(|e| matches!(&e.ev, Ev::UserRet { result: Ok((true, true)) }))
